@@ -6,6 +6,6 @@ PLAN['C04'] = dict(
          'non-trivial = a singular return was inspected or the verdict was decided; distinct = hash(pattern, route, ColPerm, storage, outcome)',
     counter_names=['singular returns inspected (candidates zero, leading block, B untouched)', 'executions with FE_INEXACT clear'],
     min_nontrivial={'quick': 1000, 'thorough': 60000},
-    require_tags={'quick': ['decided-by=exact-run', 'decided-by=immune', 'kind=hall', 'kind=dup-row', 'kind=nonsingular', 'route=gssv', 'route=gssvx', 'route=gssvx-refactor', 'refactor=done', 'info=singular']},
+    require_tags={'quick': ['decided-by=exact-run', 'decided-by=immune', 'kind=hall', 'kind=dup-row', 'kind=nonsingular', 'route=gssv', 'route=gssvx', 'route=gssvx-refactor', 'refactor=done', 'info=singular', 'gssvx-equil=YES', 'equil-singular-return/equed=R', 'equil-singular-return/equed=B']},
     assumptions=['FE_INEXACT clear between entry and return of ?gstrf implies every floating-point operation of that call was exact', 'the floating-point counterexample of DESIGN.md (structurally singular, inexact run, info=0) is inherent and not asserted'],
 )
